@@ -220,6 +220,8 @@ parseinit(struct scope *s, struct type *t)
 				focus(&p);
 		}
 		if (consume(TLBRACE)) {
+			if (p.cur == p.sub && tok.kind == TRBRACE && p.cur->type->kind == TYPEARRAY)
+				focus(&p);  /* empty initializer for the first element */
 			if (consume(TRBRACE)){
 				if (p.sub->type->incomplete)
 					error(&tok.loc, "array of unknown size has empty initializer");
